@@ -8,7 +8,11 @@
      "ip-or"   ports of IP destinations outside [lo,hi] are redirected          (intended)
      "and"     `port < lo && port > hi` — never true                           (code before repair)
      "all-or"  the `||` test applied to service ports as well (a tempting minimal repair that
-               breaks service delivery whenever the instance's port is outside the range)       *)
+               breaks service delivery whenever the instance's port is outside the range)
+     "nexthdr" stage 1 looks at the next-header field of the SCION common header instead of the one of
+               the last extension header: packets behind a hop-by-hop / end-to-end extension are
+               treated as unknown layer 4 and go to 30041 although their port is in range
+   Packets may carry extension headers (ext): the port derivation must not depend on them.       *)
 EXTENDS LocalDeliveryOps, TLC
 
 CONSTANTS Variant, RangeSet    \* RangeSet: "small" | "large"
@@ -27,15 +31,16 @@ vars == <<pc, pkt, range, port, out>>
 
 Grid(r) == {p \in {0, 1, r[1] - 1, r[1], (r[1] + r[2]) \div 2, r[2], r[2] + 1, EndhostPort, 65535, 30252} :
                p >= 0 /\ p <= 65535}
-NoPkt == [kind |-> "-", field |-> 0, dst |-> "-"]
+NoPkt == [kind |-> "-", field |-> 0, dst |-> "-", ext |-> "-"]
+Exts == {"none", "hbh", "e2e", "hbh+e2e"}
 NoOut == <<"-", -1>>
 
 Init == pc = "recv" /\ pkt = NoPkt /\ range = <<0, 0>> /\ port = -1 /\ out = NoOut
 
 Recv == /\ pc = "recv"
-        /\ \E r \in Ranges : \E k \in Kinds, f \in Grid(r), d \in {"ip", "svc"} :
+        /\ \E r \in Ranges : \E k \in Kinds, f \in Grid(r), d \in {"ip", "svc"}, x \in Exts :
               /\ (d = "svc" => k = "udp")
-              /\ range' = r /\ pkt' = [kind |-> k, field |-> f, dst |-> d]
+              /\ range' = r /\ pkt' = [kind |-> k, field |-> f, dst |-> d, ext |-> x]
         /\ pc' = "stage1" /\ UNCHANGED <<port, out>>
 
 \* dstScionPort: only evaluated for IP destinations; 0 is passed for service destinations
@@ -44,7 +49,8 @@ Stage1 == /\ pc = "stage1"
              ELSE IF pkt.kind = "err-udp" /\ pkt.field = 0 THEN port' = -1 /\ pc' = "dropped"
              \* getDstPortSCMP: a quote that does not decode down to a complete UDP / SCMP header is an error
              ELSE IF pkt.kind \in NoPort \cup Partial THEN port' = -1 /\ pc' = "dropped"
-             ELSE /\ port' = IF pkt.kind \in Defaults THEN EndhostPort ELSE pkt.field
+             ELSE /\ port' = IF pkt.kind \in Defaults \/ (Variant = "nexthdr" /\ pkt.ext # "none")
+                             THEN EndhostPort ELSE pkt.field
                   /\ pc' = "stage2"
           /\ UNCHANGED <<pkt, range, out>>
 
@@ -55,7 +61,7 @@ Redirect(p) == IF Variant = "and" THEN (IF p < range[1] /\ p > range[2] THEN End
 Stage2 == /\ pc = "stage2"
           /\ IF pkt.dst = "svc"
                THEN \E i \in SvcInst :
-                      out' = <<i[1], IF Variant = "ip-or" THEN i[2] ELSE Redirect(i[2])>>
+                      out' = <<i[1], IF Variant = "all-or" THEN Redirect(i[2]) ELSE i[2]>>
                ELSE out' = <<"host", Redirect(port)>>
           /\ pc' = "delivered" /\ UNCHANGED <<pkt, range, port>>
 
